@@ -508,8 +508,9 @@ class LSMTree(Entity):
         )
         self._memtable.set_clock(self._clock)
 
-        # Flush to SSTable
-        sstable = old_memtable.flush()
+        # Build the SSTable; the frozen memtable keeps its contents so reads
+        # are served from it until the SSTable is installed in L0
+        sstable = old_memtable.freeze()
         self._sstable_bytes_written += sstable.size_bytes
 
         # Write latency for creating SSTable on disk
